@@ -1,7 +1,6 @@
 (* P_C11.v — property C11: theorems only. Each dumped candidate of RSSchedParallelNeighborhood::neighbors_of is
-   passed through [check_inv] and [check_exact]; these theorems say what passing means. The universal claim
-   over all reachable schedules is not proved (no functional model of the swaps); candidates are compositions of
-   the public modifications whose tour-level, formation-level and cycle-level steps are proved (C12, C13, C15). *)
+   passed through [check_inv] and [check_exact]; the first theorems say what passing means; the theorems at the end are about the functional model of the
+   swaps (Swaps.v) and hold for all reachable schedules. *)
 From RS Require Import Base Network NetSpec Tour SchedObs InvStmts InvFacts.
 
 Theorem C11_candidate_tours_valid : forall nw o, stmt_inv_tours nw o.
@@ -16,3 +15,18 @@ Print Assumptions C11_candidate_cycles.
 Theorem C11_candidate_objective_truthful : forall nw o, stmt_exact_meaning nw o.
 Proof. exact exact_meaning. Qed.
 Print Assumptions C11_candidate_objective_truthful.
+
+(** At the level of the functional model of the neighbourhood (Swaps.v, compared line by line with
+    RSSchedParallelNeighborhood::neighbors_of on every generated walk): every candidate produced from a reachable
+    schedule is the application of an enumerated swap and is itself reachable, so it inherits every invariant proved
+    for reachable schedules; in particular its cached objective components are the true ones. *)
+From RS Require Import Transition Schedule SchedInv Swaps SwapsStmts SwapsFacts.
+Theorem C11_candidates_reachable : stmt_neighbors_reachable.
+Proof. exact neighbors_reachable. Qed.
+Print Assumptions C11_candidates_reachable.
+Theorem C11_candidates_are_applications : stmt_neighbors_are_applications.
+Proof. exact neighbors_are_applications. Qed.
+Print Assumptions C11_candidates_are_applications.
+Theorem C11_candidates_objective_truthful_all : stmt_neighbors_objective_truthful.
+Proof. exact neighbors_objective_truthful. Qed.
+Print Assumptions C11_candidates_objective_truthful_all.
